@@ -40,6 +40,13 @@ def query (s : List String) (j : Json) : Except String (Option Json) := do
   | "q_isdisjoint" => return some (toJson (isdisjoint s (← listArg j "o")))
   | "q_contains" => return some (toJson (s.contains (← obj j "x").compress))
   | "q_len" => return some (toJson s.length)
+  -- a second set built FROM this one, then changed / passed to a helper: `s` itself must be unaffected
+  | "q_fork_add" => return some (elemsOut (add (ofList s) (← obj j "x").compress))
+  | "q_fork_discard" => return some (elemsOut (discard (ofList s) (← obj j "x").compress))
+  | "q_fork_update" => return some (elemsOut (addAll (ofList s) (← listArg j "o")))
+  | "q_helper_union" => return some (elemsOut (orderedUnion s (← listArg j "o")))
+  | "q_helper_intersect" => return some (elemsOut (orderedIntersect s (← listArg j "o")))
+  | "q_helper_diff" => return some (elemsOut (orderedDiff s (← listArg j "o")))
   | _ => return none
 
 def handleHistory (c : Json) : Except String Json := do
